@@ -873,6 +873,7 @@ func run(c *fw.Ctx) {
 		}
 	}
 	c.Note("bounds", bounds)
+	c.Note("phase_samples", allSamples)
 	vr.report(c)
 	c.Outcome("held")
 	// outcome classes: the canonical shapes that occurred
@@ -884,6 +885,11 @@ func run(c *fw.Ctx) {
 		}
 	}
 }
+
+var (
+	samplesMu  sync.Mutex
+	allSamples []interface{}
+)
 
 // bfs runs one phase and returns the depth that was completed.
 func bfs(c *fw.Ctx, ph phase, rc *refCache, vr *violRec, ngo int) int {
@@ -902,8 +908,27 @@ func bfs(c *fw.Ctx, ph phase, rc *refCache, vr *violRec, ngo int) int {
 	visited.add(root.key)
 	c.State(1)
 	frontier := []*stateRec{{hist: append([]byte(nil), ph.seed...), mask: root.mask}}
-	var sampleN int32
+	var smu sync.Mutex
+	var sampleHist []byte
+	sampleDepth := 3
+	if len(ph.seed) == 0 {
+		sampleDepth = 4 // two keys must still be live after a removal
+	}
+	if depth < sampleDepth {
+		sampleDepth = depth
+	}
 	completed := 0
+	defer func() {
+		if sampleHist != nil {
+			rr := execute(a, rc, sampleHist, true)
+			smp := map[string]interface{}{"phase": ph.name, "history": histString(a, sampleHist), "state_dump_after": rr.dump,
+				"features": maskNames(rr.mask), "reference_root": hex.EncodeToString(rc.get(rr.ct).root)}
+			c.Sample(smp)
+			samplesMu.Lock()
+			allSamples = append(allSamples, smp)
+			samplesMu.Unlock()
+		}
+	}()
 
 	for d := 1; d <= depth && len(frontier) > 0; d++ {
 		next := newNext()
@@ -970,9 +995,13 @@ func bfs(c *fw.Ctx, ph phase, rc *refCache, vr *violRec, ngo int) int {
 						} else {
 							next.put(r.key, hist, mask, tainted)
 						}
-						if d >= 3 && r.ct.live() >= 2 && mask&(fCollapse|fMerge) != 0 && atomic.AddInt32(&sampleN, 1) <= 1 {
-							rr := execute(a, rc, hist, true)
-							c.Sample(map[string]interface{}{"phase": ph.name, "history": histString(a, hist), "final_dump": rr.dump, "features": maskNames(mask)})
+						// one written-out sample per phase: the smallest history of a fixed small length with a collapse / merge
+						if d == sampleDepth && r.ct.live() >= 2 && mask&(fCollapse|fMerge) != 0 {
+							smu.Lock()
+							if sampleHist == nil || bytes.Compare(hist, sampleHist) < 0 {
+								sampleHist = append([]byte(nil), hist...)
+							}
+							smu.Unlock()
 						}
 					}
 				}
